@@ -283,6 +283,42 @@ def check_doc(signame, ast, res, case=None):
     res.label('ctx:' + ctxname, {'sig': signame, 'src': src})
     if nontriv:
         res.nontriv(src)
+    # the same document with blanks between \begin / \end and {name}: same structure
+    import re
+    import zlib
+    n_env = sum(1 for e in _walk_struct(want) if e[0] == 'env')
+    if n_env and len(re.findall(r'\\(?:begin|end)\{', src)) == 2 * n_env \
+            and 'verbatim' not in src:
+        ws = [' ', '\t', '\n', '  '][zlib.crc32(src.encode('utf-8')) % 4]
+        src2 = re.sub(r'\\(begin|end)\{', lambda m: '\\' + m.group(1) + ws + '{', src)
+        res.case()
+        try:
+            w2, nl2 = px.parse(src2, ctx(ctxname), tolerant=False)
+            got2 = actual_list(nl2.nodelist)
+        except BaseException as e:
+            res.fail('c02:blank-between-begin-and-name:rejected',
+                     'document %r (blanks inserted after \\begin / \\end of %r): %s'
+                     % (src2, src, exc_detail(e)), dict(case, begin_ws=ws))
+            return
+        if got2 != want:
+            d = first_diff(got2, want)
+            res.fail('c02:blank-between-begin-and-name:structure',
+                     'document %r: at %s parser has %r, written structure is %r'
+                     % (src2, d[0] if d else '?', d[1] if d else None, d[2] if d else None),
+                     dict(case, begin_ws=ws))
+            return
+        res.label('blank-between-begin-and-name')
+
+
+def _walk_struct(struct):
+    for e in struct:
+        if not isinstance(e, list) or not e or not isinstance(e[0], str):
+            continue
+        yield e
+        for sub in e[1:]:
+            if isinstance(sub, list):
+                for x in _walk_struct([y for y in sub if isinstance(y, list)]):
+                    yield x
 
 
 def _b(items):
@@ -382,7 +418,7 @@ def plan(tier, seed):
                                  'slots:4+', 'arg:token-macro', 'arg:token-char', 'arg:group{',
                                  'arg:group[', 'arg:group<', 'math:$', 'math:$$', 'math:\\(',
                                  'math:\\[', 'par', 'comment', 'specials', 'absent-arg',
-                                 'ctx:default', 'ctx:every', 'ctx:every-strings',
+                                 'blank-between-begin-and-name', 'ctx:default', 'ctx:every', 'ctx:every-strings',
                                  'ctx:every-nounknown', 'enumerated-derivation']}
 
 
